@@ -5,7 +5,8 @@ after every field was looked at, and the driver looks at every rule attribute (R
 bounds are the extremes of each dimension (R2); a time span is canonical exactly when
 evaluation does not wrap it (R4, sibling agreement with TimeSpan::as_naive); every emitted
 rule marks its days as covered (R5); the universal check `is_val` only exits early with the
-falsifying answer (R6); the day-wide reset of a normal rule uses the full time bounds (R7).
+falsifying answer (R6); the day-wide reset of a normal rule uses the full time bounds (R7);
+succ / pred of every frame dimension are exact on the whole frame (R8, exhaustive evaluation).
 Not decided: the paving algebra as a whole (set / pop_filter values), operator choice.
 """
 
@@ -182,6 +183,78 @@ def run(ctx, prog, res):
                 consts.append((d["op"], vs[0].split("::")[-1]))
     r7.check(sorted(consts) == sorted([("Eq", "Fallback"), ("Eq", "Normal"), ("Ne", "Closed")]), {"driver_tests": consts}, "C07.R7:tests",
              "normalize's operator/kind tests are %s (expected: stop at Fallback; reset iff Normal and kind != Closed)" % consts, lib.where_of(nz))
+
+    # R8 -------------------------------------------------------------------------------------
+    r8 = res.rule("C07.R8", "closed ranges are converted to half-open ones and back with the exact successor / predecessor of each dimension: for every Framable impl, succ(x) = x + 1 for every x in [FRAME_START, FRAME_END) and pred(x) = x - 1 for every x in (FRAME_START, FRAME_END] (the extracted integer expressions are evaluated on the whole frame; delegations to chrono's Weekday::succ/pred are trusted)")
+    import terms
+    fr = {}
+    for f in prog.fns.values():
+        if f.impl and (f.impl.get("trait") or "").endswith("frame::Framable") and f.name in ("succ", "pred", "FRAME_START", "FRAME_END"):
+            fr.setdefault(f.impl.get("self"), {})[f.name] = f
+
+    def const_of(f, ty):
+        sh = flow.shape(f, 0, depth=6)
+        m = re.fullmatch(r"\w+\{0: (-?\d+)\}", sh)
+        if m:
+            return int(m.group(1))
+        m = re.fullmatch(r"(\w+)::(\w+)\{\}", sh)
+        a = prog.adts.get(ty)
+        if m and a and a.get("discrs"):
+            names = [v["name"] for v in a["variants"]]
+            if m.group(2) in names:
+                return a["discrs"][names.index(m.group(2))]
+        return None
+
+    def step_expr(f, depth=0):
+        """Integer term computing the inner value of succ/pred, following one delegation to a
+        workspace method of the same type."""
+        sh = flow.shape(f, 0, depth=12)
+        m = re.fullmatch(r"\w+\{0: (.*)\}", sh)
+        if m:
+            return m.group(1)
+        m = re.fullmatch(r"([\w:]+)\(p1(?:\.0)?\)", sh)
+        if m and depth == 0:
+            cands = [g for g in prog.fns.values() if g.crate == lib.SYN and g.kind in ("AssocFn", "Fn") and g.id.endswith("::" + m.group(1).split("::")[-1]) and g.impl and g.impl.get("self") == f.impl.get("self") and not g.impl.get("trait")]
+            if len(cands) == 1:
+                return step_expr(cands[0], depth + 1)
+            return "extern:" + m.group(1)
+        return sh
+
+    for ty, fs in sorted(fr.items()):
+        if set(fs) != {"succ", "pred", "FRAME_START", "FRAME_END"}:
+            r8.anchor_missing("succ/pred/FRAME_START/FRAME_END of Framable for %s" % ty)
+            continue
+        lo, hi = const_of(fs["FRAME_START"], ty), const_of(fs["FRAME_END"], ty)
+        for nm, delta, dom in (("succ", 1, lambda: range(lo, hi)), ("pred", -1, lambda: range(lo + 1, hi + 1))):
+            ex = step_expr(fs[nm])
+            short_ty = ty.split("::")[-1]
+            if ex.startswith("extern:") or re.fullmatch(r"\w+\{0: Weekday::(succ|pred)\(p1\.0\)\}", flow.shape(fs[nm], 0, depth=6)) or re.fullmatch(r"Weekday::(succ|pred)\(p1\.0\)", ex):
+                which = re.search(r"(succ|pred)", ex).group(1) if re.search(r"(succ|pred)", ex) else "?"
+                r8.check(which == nm, {"type": short_ty, nm: "delegates to chrono Weekday::%s (trusted)" % which}, "C07.R8:%s:%s" % (short_ty, nm), "%s::%s delegates to Weekday::%s" % (short_ty, nm, which), lib.where_of(fs[nm]))
+                continue
+            if lo is None or hi is None:
+                r8.fail("C07.R8:%s:frame" % short_ty, "frame bounds of %s are not integer constants" % short_ty, lib.where_of(fs["FRAME_START"]))
+                break
+            try:
+                tree = terms.parse(ex)
+                bad = None
+                n = 0
+                for x in dom():
+                    def leaf(nd, x=x):
+                        if nd[0] == "var" and nd[1] in ("p1", "p1.0"):
+                            return x
+                        if nd[0] == "app" and nd[1] == "discr" and len(nd[2]) == 1 and nd[2][0] == ("var", "p1"):
+                            return x
+                        return None
+                    got = terms.evaluate(tree, leaf)
+                    n += 1
+                    if got != x + delta and bad is None:
+                        bad = (x, got)
+                r8.check(bad is None, {"type": short_ty, nm: ex, "frame": [lo, hi], "evaluated": n}, "C07.R8:%s:%s" % (short_ty, nm),
+                         "%s::%s(%s) = %s (expected %s): %s" % ((short_ty, nm) + ((bad[0], bad[1], bad[0] + delta) if bad else ("", "", "")) + (ex,)), lib.where_of(fs[nm]))
+            except terms.TermError as e:
+                r8.fail("C07.R8:%s:%s:unmodelled" % (short_ty, nm), "%s::%s is computed by an expression outside the modelled arithmetic (%s): %s" % (short_ty, nm, e, ex), lib.where_of(fs[nm]))
+    r8.floor(8)
 
 
 def _is_loop_exhausted_exit(f, bb, loops):
